@@ -162,14 +162,19 @@ def call : P (Call MiniChunk) := do
   let op ← topop
   pure ⟨t, op⟩
 
-partial def calls : P (List (Call MiniChunk)) := fun s =>
-  match s with
-  | [] => some ([], [])
-  | _ => match call s with
-    | none => none
-    | some (c, rest) => match calls rest with
+def callsN : Nat → P (List (Call MiniChunk))
+  | 0 => fun s => if s.isEmpty then some ([], []) else none
+  | n + 1 => fun s =>
+    match s with
+    | [] => some ([], [])
+    | _ => match call s with
       | none => none
-      | some (cs, r) => some (c :: cs, r)
+      | some (c, rest) => match callsN n rest with
+        | none => none
+        | some (cs, r) => some (c :: cs, r)
+
+/-- every call consumes at least one token, so the number of tokens is enough fuel -/
+def calls : P (List (Call MiniChunk)) := fun s => callsN s.length s
 
 def parseCase : P (List HDef × List (Call MiniChunk)) := do
   let t ← tok
